@@ -22,6 +22,10 @@ T={
        'For every baseline (suite x mode x shapes) every bit of info/psk/psk_id, appended/dropped bytes, field-boundary shifts, every other mode with the same data, every other KDF/AEAD, other recipient key, other and bit-flipped/negated enc is applied to the receiver: setup must fail or all sender ciphertexts are rejected and all exports differ; the unperturbed receiver is the non-vacuity control.','exports of >= 16 bytes are taken as different iff unequal','hpke-mc'),
 'C08':('model_checking','bounded-exhaustive enumeration of impostor senders per receiver (identity pairs, pk-only pairing, non-auth modes, negated identity, every PSK / PSK-id bit)',
        'A receiver in Auth/AuthPsk/Psk mode is confronted with sessions from each impostor class; none may be accepted (no ciphertext opens, every export differs), the honest sender must be.','impostor key pairs are derived from seeds; PSK bit flips use stride 7 for P-384/P-521 and 300-byte PSKs','hpke-mc'),
+'C09':('model_checking','bounded-exhaustive enumeration of crafted and perturbed key encodings (every length, every tag byte, bit flips, non-canonical coordinates, twist / other-b points, scalar range boundaries), verdict from an independent Python validity predicate (R2)',
+       'About 10^4 encodings per run for P-256/384/521 public, encapsulated and private keys; each must be accepted iff R2 says it is the canonical uncompressed encoding of a curve point (resp. a scalar in [1,n-1]), rejected with the exact error kind otherwise, re-serialize to itself when accepted, and never get past the typed API into setup when rejected.','R2 predicate and curve constants (self-validated: primality, n*G=infinity, Hasse, RFC 5903 vectors)','hpke-mc + ref/gen_c09.py'),
+'C12':('model_checking','bounded-exhaustive enumeration: all input lengths and buffer lengths 0..=2*size+2 for 16 serializable types, derived values, R2-accepted encodings',
+       'Sizes equal the RFC 9180 constants, from_bytes(to_bytes(v)) == v for derived keys / encapsulated keys / real tags, every accepted byte string re-serializes to itself (X25519 private keys up to clamping), wrong lengths give IncorrectInputLength(expected, given) in that order, write_exact panics exactly when the buffer length differs.','','hpke-mc + ref/gen_c09.py'),
 'C10':('model_checking','exhaustive enumeration of the 14 small-order encodings x roles x modes x KDF x AEAD x interfaces, oracle = R1 zero-DH predicate; 1556 negatives',
        'Every small-order encoding in every role and mode in which it takes part in a DH must abort setup with EncapError/DecapError (setup and single-shot forms), keys that are in no DH or not of small order must be accepted and yield R1 outputs.','the list of 14 encodings is recomputed from scratch by R2 and validated against R1 at run time','hpke-mc'),
 'C13':('model_checking','bounded-exhaustive enumeration of input lengths at every byte-consuming entry point, panics observed through catch_unwind with overflow checks and debug assertions on',
